@@ -442,6 +442,34 @@ fn ok_or_none<T>(x: Option<T>, f: impl Fn(T) -> String) -> String {
     }
 }
 
+/// the text parsers on every single byte, every two-byte string (squares) and the four/five-byte move strings over the
+/// boundary alphabet: the "parsing" part of C07 (no byte string may panic a parser)
+pub fn text_parsers_no_panic(out: &mut Out) {
+    for p in ["file", "rank", "piece", "promo", "pos", "move"] {
+        txt_case(out, "text-empty", p, &[]);
+        for c in 0..=255u8 {
+            txt_case(out, "text-one-byte", p, &[c]);
+        }
+    }
+    for a in 0..=255u8 {
+        for b in 0..=255u8 {
+            txt_case(out, "text-two-bytes-pos", "pos", &[a, b]);
+        }
+    }
+    let alpha: [u8; 10] = [b'a', b'h', b'i', b'`', b'1', b'8', b'0', b'9', b'-', b' '];
+    for len in [4usize, 5] {
+        let total = 10usize.pow(len as u32);
+        let stride = if len == 4 { 1 } else { 7 };
+        let mut k = 0;
+        while k < total {
+            let mut x = k;
+            let bytes: Vec<u8> = (0..len).map(|_| { let c = alpha[x % 10]; x /= 10; c }).collect();
+            txt_case(out, "text-move-alphabet", "move", &bytes);
+            k += stride;
+        }
+    }
+}
+
 fn txt_case(out: &mut Out, kind: &str, parser: &str, bytes: &[u8]) {
     let req = format!("txt {parser} {}", hexbytes(bytes));
     let b = bytes.to_vec();
